@@ -360,6 +360,46 @@ def _const_at(f, defs, bi, op):
     return None
 
 
+def _value_at(f, defs, bi, op):
+    """the expression an operand holds at the end of block bi when it is a load of a place whose last store on the straight-line
+    path leading here is visible (None otherwise)"""
+    e = F.expr(f, defs, op)
+    while e[0] == 'cast':
+        e = e[2]
+    if e[0] != 'load':
+        return e
+    def _norm(pl):
+        # the same cell reached through a copy of the pointer (a helper's parameter bound to the caller's argument)
+        l = pl['local']
+        for _ in range(8):
+            d = defs.get(l)
+            if d and d[0] == 'rv' and d[1]['k'] == 'use' and d[1]['x']['k'] in ('copy', 'move') and not d[1]['x']['place']['proj']:
+                l = d[1]['x']['place']['local']
+            elif d and d[0] == 'rv' and d[1]['k'] in ('ref', 'rawptr') and [pr['k'] for pr in d[1]['place']['proj']] == ['deref']:
+                l = d[1]['place']['local']          # a reborrow `&mut *p`: the same cell
+            else:
+                break
+        return json.dumps({'local': l, 'proj': pl['proj']}, sort_keys=True)
+    place = _norm(e[1])
+    preds = {}
+    for i, b in F.blocks(f):
+        for m in F.succ(b):
+            preds.setdefault(m, set()).add(i)
+    cur = bi
+    for _ in range(16):
+        for s in reversed(f['blocks'][cur]['stmts']):
+            if s['k'] == 'assign' and s['place']['proj'] and _norm(s['place']) == place:
+                return F.expr_rv(f, defs, s['rv'])
+        ps = preds.get(cur, set())
+        if len(ps) != 1:
+            return None
+        cur = next(iter(ps))
+        t = f['blocks'][cur]['term']
+        if t['k'] == 'call' and not (F.call_path(t) or '').endswith('::len'):
+            return None
+    return None
+
+
 def buffers_rule(ctx, facts, cfg):
     rid = 'C15.c'
     n_raw = 0
@@ -441,6 +481,34 @@ def buffers_rule(ctx, facts, cfg):
                         break
                     cur = ct.get('target') if ct['k'] in ('call', 'goto', 'drop', 'assert') else None
                 oke = L is not None and N is not None and L == N and (not okc or cap is None or N <= cap)
+                if not oke and L is None:
+                    # ... or the length of the very slice that is copied in (`*len = src.len(); from_raw_parts_mut(p, *len).copy_from_slice(src)`)
+                    lv = _value_at(f, defs, bi, t['args'][1])
+                    src_op = None
+                    cur2 = t.get('target')
+                    for _ in range(8):
+                        if cur2 is None:
+                            break
+                        ct2 = f['blocks'][cur2]['term']
+                        if ct2['k'] == 'call' and (F.call_path(ct2) or '').endswith('copy_from_slice'):
+                            src_op = ct2['args'][1]
+                            break
+                        cur2 = ct2.get('target') if ct2['k'] in ('call', 'goto', 'drop', 'assert') else None
+                    if lv is not None and src_op is not None and lv[0] == 'call' and str(lv[1]).endswith('::len') and lv[2]:
+                        r1 = sorted(map(str, F.roots(f, defs, src_op)))
+                        a0 = lv[2][0]
+                        r2 = sorted(map(str, [a0])) if a0[0] not in ('ref', 'cast', 'load', 'local') else None
+                        # compare by the place the two expressions read
+                        e_src = F.expr(f, defs, src_op)
+                        def _strip(x):
+                            while x[0] in ('cast', 'ref') and isinstance(x[-1], tuple) or (x[0] == 'ref' and isinstance(x[1], dict)):
+                                if x[0] == 'ref' and isinstance(x[1], dict):
+                                    return ('place', json.dumps({k: x[1][k] for k in ('local', 'proj')}, sort_keys=True))
+                                x = x[-1]
+                            return x
+                        if _strip(a0) == _strip(e_src) or str(a0) == str(e_src):
+                            oke = True
+                            L = N = 'len(source)' 
                 ctx.instance(rid, '%s: the slice over the caller buffer is exactly the %s bytes copied into it (length %s)' % (key, N, L), ok=oke, site=t['at'])
                 if not oke:
                     ctx.violation(rid, key, 'slice-span-not-exact',
